@@ -418,3 +418,29 @@ Definition protected_sites (sk : skeleton) : nat :=
                       | SAcc fd k _ => match k with KAt => false | _ =>
                            match sk_prot sk fd with Some _ => true | None => false end end
                       | _ => false end) (fn_body f))) (sk_funcs sk)).
+
+(* readable reports (used by Props/C12.v and by bin/gen-skeleton's diagnostics) *)
+Definition v_eqb (a b : violation) : bool :=
+  Nat.eqb (v_fn a) (v_fn b) && Nat.eqb (v_field a) (v_field b) && Nat.eqb (v_line a) (v_line b).
+Fixpoint dedup (vs : list violation) : list violation :=
+  match vs with
+  | [] => []
+  | v :: r => if existsb (v_eqb v) r then dedup r else v :: dedup r
+  end.
+Definition dummy_func := mkF "?" "?" 0 [].
+(* (function, file, line, field, reason) *)
+Definition describe (sk : skeleton) (v : violation) : string * string * nat * string * vreason :=
+  (fn_name (nth (v_fn v) (sk_funcs sk) dummy_func), fn_file (nth (v_fn v) (sk_funcs sk) dummy_func),
+   v_line v,
+   match v_why v with
+   | VUnbalanced | VRecLockset | VBad => "-"%string
+   | _ => fd_name (nth (v_field v) (sk_fields sk) dummy_field)
+   end, v_why v).
+Definition report_violations (sk : skeleton) := map (describe sk) (dedup (violations sk)).
+Definition report_exempted (sk : skeleton) := map (describe sk) (dedup (exempted sk)).
+(* policy entries that exempt nothing (stale) *)
+Definition stale_policy (sk : skeleton) : list (string * string) :=
+  let ex := exempted sk in
+  let used (pe : spolicy) := existsb (fun v => Nat.eqb (v_field v) (pe_field pe)) ex in
+  map (fun pe => (fn_name (nth (pe_func pe) (sk_funcs sk) dummy_func), fd_name (nth (pe_field pe) (sk_fields sk) dummy_field)))
+      (filter (fun pe => negb (used pe)) (sk_allow sk ++ sk_known_unprotected sk)).
